@@ -182,7 +182,7 @@ pub const C20: Spec = Spec {
   judge: c20_judge,
   opts: Opts::default,
   quick: (8, 10000),
-  thorough: (16, 20000),
+  thorough: (16, 250000),
   extra: Some(c20_extra),
   strategy: None,
   assumptions: &["the from-scratch evaluator decides whether a violation exists in the current state", "panic messages name the tasks/resources involved (parsed for the finding signature only)"],
